@@ -203,4 +203,90 @@ def run(files, pid):
                          "backend": "lean", "kind": "lean-theorem", "ms": secs * 1000 / max(1, len(thms)),
                          "output": "\n".join(errs.get(nm, []) + errs.get("<file>", []))[:1500] if bad else None,
                          "statement": text[:400]})
+    _equivalence_fallback(gen, obls, files)
     return obls
+
+
+def _defs_of(text):
+    out = {}
+    for ln in text.split("\n"):
+        m = re.match(r"(?:noncomputable )?def (\S+) (.*?) : (Fin n → ℝ|ℝ|Prop) := (.*)$", ln)
+        if m:
+            out[m.group(1)] = (m.group(2), m.group(3), ln)
+    return out
+
+
+def _equivalence_fallback(gen, obls, files):
+    """A proof script is written against the definitions generated from the tree it was developed on (lean/GenRef.lean, regenerated with
+    tools/gen_ref.py and identical to Gen.lean on the unchanged tree).  When a theorem stops checking after a source change, the changed
+    definitions are first compared with their reference: if Lean proves `Gen.f = Ref.f` for every definition whose text changed (ring
+    normalisation under the binders), the code still computes the same real function, the theorems proved for the reference transfer, and
+    the failure was the proof script's, not the code's.  Otherwise the failures stand."""
+    failed = [o for o in obls if o["verdict"] == "failed" and o.get("kind") == "lean-theorem"]
+    ref_path = LEAN_DIR / "GenRef.lean"
+    if not failed or not ref_path.exists():
+        return
+    ref_text = ref_path.read_text()
+    cur, ref = _defs_of(gen["text"]), _defs_of(ref_text)
+    if not set(ref) <= set(cur) | {d for e in gen["errors"] for d in e.get("defs", [])} or any(d not in cur for d in ref):
+        return                      # a definition is missing: nothing transfers
+    changed = [d for d in ref if cur[d][2] != ref[d][2]]
+    if not changed or any(cur[d][0] != ref[d][0] or cur[d][1] != ref[d][1] for d in changed):
+        return                      # same text (the failure is not about a rewritten formula) or a changed signature
+    (BUILD / "GenRef.lean").write_text("import Spec\nopen Finset Real\nset_option linter.unusedVariables false\n" + ref_text.replace("namespace Gen", "namespace Ref").replace("end Gen", "end Ref"))
+    rc, out, _ = _lean(["-o", str(BUILD / "GenRef.olean"), str(BUILD / "GenRef.lean")])
+    if rc != 0 or "error" in out:
+        return
+    body = ["import Spec", "import Gen", "import GenRef", "open Finset Real Spec", "set_option linter.unusedVariables false", "set_option linter.unusedSimpArgs false",
+            "set_option linter.unusedSectionVars false", "set_option linter.unreachableTactic false", "set_option linter.unusedTactic false", "variable {n : ℕ} [NeZero n]", ""]
+    unfold = ", ".join([f"Gen.{d}" for d in cur] + [f"Ref.{d}" for d in ref])
+    ac = "sub_eq_add_neg, neg_add, neg_neg, neg_mul, mul_neg, add_comm, add_left_comm, add_assoc, mul_comm, mul_left_comm, mul_assoc"
+    tac = f"  simp only [{unfold}]\n  first | rfl | ring | (simp only [{ac}])"
+    for d in changed:
+        params, typ, _ = cur[d]
+        names = " ".join(re.findall(r"\((\w+) :", params))
+        if typ == "Fin n → ℝ":
+            body.append(f"theorem eq_{d} {params} (i : Fin n) : Gen.{d} {names} i = Ref.{d} {names} i := by\n{tac}")
+        elif typ == "Prop":
+            body.append(f"theorem eq_{d} {params} (i : Fin n) : Gen.{d} {names} i ↔ Ref.{d} {names} i := by\n{tac}")
+        else:
+            body.append(f"theorem eq_{d} {params} : Gen.{d} {names} = Ref.{d} {names} := by\n{tac}")
+    (BUILD / "Equiv.lean").write_text("\n".join(body) + "\n")
+    try:
+        rc, out, secs = _lean([str(BUILD / "Equiv.lean")], timeout=240)
+    except subprocess.TimeoutExpired:
+        rc, out = 1, "timeout"
+    if rc != 0 or re.search(r": error", out) or "sorry" in out:
+        for o in failed:
+            o["output"] = ((o.get("output") or "") + f"\n[reference comparison: the changed definition(s) {changed} could not be proved equal to their reference]")[:1500]
+        return
+    # the proof scripts must check against the reference definitions themselves (guards against a stale lean/GenRef.lean)
+    rb = BUILD / "refcheck"
+    rb.mkdir(exist_ok=True)
+    (rb / "Gen.lean").write_text("import Spec\nopen Finset Real\nset_option linter.unusedVariables false\n" + ref_text)
+    env = dict(os.environ, LEAN_PATH=f"{rb}:{SHARED}")
+
+    def lean_rb(args):
+        pr_ = subprocess.run(["lean"] + args, capture_output=True, text=True, cwd=str(LEAN_DIR), env=env, timeout=1500)
+        return pr_.returncode, pr_.stdout + pr_.stderr
+    ok = lean_rb(["-o", str(rb / "Gen.olean"), str(rb / "Gen.lean")])[0] == 0
+    if ok:
+        (rb / "Common.lean").write_text("import Spec\nimport Gen\n" + (LEAN_DIR / "Common.lean").read_text())
+        ok = lean_rb(["-o", str(rb / "Common.olean"), str(rb / "Common.lean")])[0] == 0
+    for f in sorted({o["function"] for o in failed}):
+        if not ok:
+            break
+        src_f = BUILD / f
+        if not src_f.exists():
+            ok = False
+            break
+        (rb / f).write_text(src_f.read_text())
+        rc2, out2 = lean_rb([str(rb / f)])
+        if rc2 != 0 or re.search(r": error", out2):
+            ok = False
+    if not ok:
+        return
+    for o in failed:
+        o["verdict"] = "proved"
+        o["backend"] = "lean (the rewritten definition(s) " + ", ".join(changed) + " proved equal to the reference definitions the proof script was written for)"
+        o["output"] = None
